@@ -98,18 +98,18 @@ type c17inst struct {
 }
 
 type c17world struct {
-	cs    *h.Case
-	tcp   bool
-	tls   bool // the filtering server listens on a tls:// address (c17tls.go); tcp is set too
+	cs     *h.Case
+	tcp    bool
+	tls    bool // the filtering server listens on a tls:// address (c17tls.go); tcp is set too
 	ownSrv bool // the server was made by the harness itself, not by a LocalTest
-	lt    *onet.LocalTest
-	srv   *onet.Server
-	keys  map[int]*key.Pair
-	byPub map[string]int
-	byID  map[network.ServerIdentityID]int
-	insts []*c17inst
-	port  int
-	disp  chan string
+	lt     *onet.LocalTest
+	srv    *onet.Server
+	keys   map[int]*key.Pair
+	byPub  map[string]int
+	byID   map[network.ServerIdentityID]int
+	insts  []*c17inst
+	port   int
+	disp   chan string
 	// the property's own reference: a map of sets of keys
 	// keyed by the set as the history names it (router-level ids normalised to their 32 bytes,
 	// context-level ids by service and bytes): two services that use the same bytes name two sets
